@@ -15,6 +15,10 @@ negative `count`, `self.len()? - count.to_usize()` — byte count minus the *wra
 which overflows (panic in a checked build, `len + |count|` in an unchecked one).  The model is the repaired code:
 trim `|count|` bits off the end, `OutOfBounds` when there are fewer bits than that.
 
+**Order of the checks** (commit 97c65b7 of the crate): both operations parse the bit order, then validate the axis
+(`axis_in_bounds(normalize_axis(axis))`), and only then take the empty-array shortcut — an unknown order name or an axis
+outside the rank is refused for empty arrays too.
+
 The axis forms go through `apply_along_axis`; that function is a parameter (`Along`) here.  `alongRef` is a
 coordinate-level reference semantics used for the tie on rank ≤ 3 (the pipeline model of `apply_along_axis`
 itself, with its rank ≥ 4 defect, belongs to the shared axis model).
@@ -142,26 +146,43 @@ abbrev Along := Arr Nat → Nat → (Arr Nat → Res (Arr Nat)) → Res (Arr Nat
 def normalizeAxis (ndim : Nat) (axis : Int) : Nat :=
   if axis < 0 then ((axis + Int.ofNat ndim) % (2 ^ 64 : Int)).toNat else axis.toNat
 
+/-- `if let Some(axis) = axis { self.axis_in_bounds(self.normalize_axis(axis))?; }` (commit 97c65b7; `axis_in_bounds`:
+`if axis >= self.ndim()? { Err(AxisOutOfBounds) } else { Ok(()) }`) -/
+def axisCheck (ndim : Nat) : Option Int → Res Unit
+  | none => .ok ()
+  | some ax => if normalizeAxis ndim ax ≥ ndim then .err .AxisOutOfBounds else .ok ()
+
+/-- `unpack_bits` as of 97c65b7: parse the order, validate the axis, only then the empty-array shortcut
+(`if self.is_empty()? { return Self::empty() }`), then the flat arm or `apply_along_axis` -/
 def unpackBits (along : Along) (a : Arr Nat) (axis : Option Int) (count : Option Int)
     (order : Option Spelling) : Res (Arr Nat) :=
-  if a.isEmpty then .ok ⟨[], [0]⟩
-  else match optOrder order with
+  match optOrder order with
+  | .err e => .err e
+  | .panic => .panic
+  | .ok o =>
+    match axisCheck a.ndim axis with
     | .err e => .err e
     | .panic => .panic
-    | .ok o =>
-      match axis with
-      | none => unpackFlatArr o count a
-      | some ax => along a (normalizeAxis a.ndim ax) (unpackLane o count)
+    | .ok _ =>
+      if a.isEmpty then .ok ⟨[], [0]⟩
+      else match axis with
+        | none => unpackFlatArr o count a
+        | some ax => along a (normalizeAxis a.ndim ax) (unpackLane o count)
 
+/-- `pack_bits`, same order of the checks -/
 def packBits (along : Along) (a : Arr Nat) (axis : Option Int) (order : Option Spelling) : Res (Arr Nat) :=
-  if a.isEmpty then .ok ⟨[], [0]⟩
-  else match optOrder order with
+  match optOrder order with
+  | .err e => .err e
+  | .panic => .panic
+  | .ok o =>
+    match axisCheck a.ndim axis with
     | .err e => .err e
     | .panic => .panic
-    | .ok o =>
-      match axis with
-      | none => packFlatArr o a
-      | some ax => along a (normalizeAxis a.ndim ax) (packLane o)
+    | .ok _ =>
+      if a.isEmpty then .ok ⟨[], [0]⟩
+      else match axis with
+        | none => packFlatArr o a
+        | some ax => along a (normalizeAxis a.ndim ax) (packLane o)
 
 /-! ### reference semantics of "apply `f` to every lane along `axis`" (coordinates; used for rank ≤ 3) -/
 
